@@ -81,6 +81,18 @@ fn mutations(code: u32, max_code: u32, base_flags: u32, good: &[u8], good_fds: u
     v
 }
 
+/// Non-zero 64-bit statuses whose set bits sit in every byte of the word (a status is a failure
+/// whichever bit carries it).
+fn nonzero_statuses() -> Vec<(String, Vec<u8>)> {
+    let mut v = Vec::new();
+    for bit in [1u32, 7, 8, 15, 16, 24, 31, 32, 33, 40, 47, 48, 56, 63] {
+        v.push((format!("status=1<<{bit}"), spec::p_u64(1u64 << bit)));
+    }
+    v.push(("status=high-half".into(), spec::p_u64(0xffff_ffff_0000_0000)));
+    v.push(("status=-EINVAL".into(), spec::p_u64((-22i64) as u64)));
+    v
+}
+
 fn send_reply(peer_fd: RawFd, mu: &Mutation, gpu_hdr: bool) -> Vec<std::fs::File> {
     let _ = gpu_hdr;
     let files: Vec<std::fs::File> = (0..mu.nfds).map(|_| sys::memfd("c06", 4096)).collect();
@@ -141,8 +153,12 @@ fn frontend_replies(cfg: &Cfg, rng: &mut Rng) {
             (_, ReplyKind::Ack) => {
                 invalid.push(("status=1".into(), spec::p_u64(1)));
                 invalid.push(("status=max".into(), spec::p_u64(u64::MAX)));
+                invalid.extend(nonzero_statuses());
             }
-            (FeOp::CheckDeviceState, _) => invalid.push(("status=1".into(), spec::p_u64(1))),
+            (FeOp::CheckDeviceState, _) => {
+                invalid.push(("status=1".into(), spec::p_u64(1)));
+                invalid.extend(nonzero_statuses());
+            }
             (FeOp::GetConfig { offset, size, flags, .. }, _) => {
                 let data = vec![0x11u8; *size as usize];
                 invalid.push(("other-offset".into(), spec::p_config(offset ^ 1, *size, *flags, &data)));
@@ -217,7 +233,8 @@ fn proxy_replies(cfg: &Cfg, rng: &mut Rng) {
             continue;
         }
         let op: BeOp = c01::rand_beop(&mut vrng, k);
-        let invalid = vec![("status=1".to_string(), spec::p_u64(1)), ("status=max".to_string(), spec::p_u64(u64::MAX))];
+        let mut invalid = vec![("status=1".to_string(), spec::p_u64(1)), ("status=max".to_string(), spec::p_u64(u64::MAX))];
+        invalid.extend(nonzero_statuses());
         for mu in mutations(op.code(), spec::be::MAX_CODE, F_VERSION1 | F_REPLY, &spec::p_u64(0), 0, false, rng, invalid) {
             let (a, peer) = sys::pair();
             let b = Backend::from_stream(a);
